@@ -463,3 +463,6 @@ def run(ctx: Ctx, rep: Report, tier: str):
     from rules.common import alias as _alias12
     _alias12(rep, ["C20.S4"], "C12.Y11", "un-request pushes a pending local MOVE as well as a pending edit before it deletes the local copy (C20.S4): an object moved out of the "
              "root is not deleted through its refreshed path", 1, lambda: _C20(ctx, rep).s4(), keep=lambda i: i.key == "_smart_unsync_ent|push")
+    from rules.common import content_first_deferral
+    rep.rule("C12.Y12", "a move out of the root does not destroy a concurrent edit of the peer: the content change is handled first (C02.R15)", 1)
+    content_first_deferral(ctx, rep, "C12.Y12")
